@@ -377,7 +377,12 @@ class Sym:
                 return self.state[k]
             return Poly.atom(k + (self.suffix(k) if self.suffix and "@v" not in k else ""))
         if isinstance(e, (ast.Compare, ast.BoolOp)):
-            return Poly.atom(cmp_key(self.cmp(e, at, depth + 1)))
+            c_ = self.cmp(e, at, depth + 1)
+            if self.decide is not None:
+                v_ = self.decide(c_)
+                if v_ is not None:
+                    return Poly.atom("True" if v_ else "False")
+            return Poly.atom(cmp_key(c_))
         return Poly.atom(self._generic(e, at, depth))
 
     def canon(self, e: ast.AST, at: Optional[int] = None, depth: int = 0) -> str:
